@@ -163,7 +163,10 @@ def psd_layouts(d, ctx):
                   what=f'mask={mode}/{mkind} {kw}', mask=mode)
     require(np.all(np.isfinite(got)), 'psd-finite', '')
     herm = np.max(np.abs(got - np.swapaxes(got.conj(), -1, -2)))
-    require(herm <= max(1e-12, rt * 1e-2) * max(scale, 1e-300), 'psd-hermitian', f'{herm:.3e}')
+    # Hermitian up to the rounding of the accumulation (T <= 64 terms) in the
+    # precision of the result: 32 eps, i.e. 4e-6 relative in single precision
+    require(herm <= max(1e-12, rt * 1e-2, 32 * float(np.finfo(np.asarray(got).dtype).eps))
+            * max(scale, 1e-300), 'psd-hermitian', f'{herm:.3e}')
     if mkind == 'zero':
         require(np.all(got == 0), 'zero-mask-gives-zero-matrix', '')
     ev = np.linalg.eigvalsh((got + np.swapaxes(got.conj(), -1, -2)) / 2)
